@@ -349,11 +349,13 @@ func report(w *World, sum *propSummary, cfg RunConfig, verif string, seed int, w
 	return exit
 }
 
-var propLevels = map[string]string{"C18": "other"}
+var propLevels = map[string]string{"C18": "other", "C09": "other", "C14": "other", "C15": "other"}
 var propExplain = map[string]string{
 	"C18": "Ownership contracts (guarded fields, held-at-entry locks, goroutine-closure clauses) written in /repo/<pkg>/verif_contracts.go are discharged by a must-hold lockset dataflow over go/ssa for every function of every repository package, plus one SMT-discharged aliasing postcondition (NumHash.get returns a copy). This decides a lock discipline for the named fields on every control-flow path; it does not explore schedules and knows no happens-before edges other than mutexes. obligations/discharged count the ownership obligations (back end 'flow') and the SMT obligations together; obligations listed in KNOWN_FINDINGS.txt are reported as KNOWN-FINDING and excluded from both counts.",
 	"C20": "Manager.Run ordering facts are control-flow obligations over go/ssa (back end 'flow'); AllIntegrations' merge is an SMT-discharged contract. Goroutine timing is not explored.",
-	"C14": "glf.any and lwc.get are SMT-discharged; the fetch plan (glf.New + Client.Get) is decided by the bounded all-pairs stand-in listed under 'bounded' (labelled bounded, not counted in obligations/discharged).",
+	"C14": "Mixed level: glf.any, glf.difference and lwc.get are SMT-discharged contracts on the real code (obligations/discharged count only these); the fetch plan itself (glf.New + Client.Get) is decided by the bounded all-pairs stand-ins listed under 'bounded' (labelled bounded, never counted as proved).",
+	"C09": "Mixed level: hasStatic and sizeof are SMT-discharged against the ABI specification for every type tree (obligations/discharged count only these); the decoding itself (Event.ABIType + Result.Scan) is decided by the bounded stand-in listed under 'bounded' (labelled bounded, never counted as proved). Memory safety of scan for arbitrary input is C10 (proved).",
+	"C15": "Mixed level: wstrings.Safe is an SMT-discharged contract and the rejection path of web.SaveIntegration is a control-flow obligation (obligations/discharged count these); that every configuration string reaching SQL text has passed the identifier check is decided by the bounded reflection-driven stand-in listed under 'bounded' (labelled bounded, never counted as proved).",
 }
 
 func round3(f float64) float64 { return float64(int(f*1000+0.5)) / 1000 }
